@@ -158,6 +158,14 @@ struct Driver {
 #ifdef HFSM2_ENABLE_PLANS
 		if (knobs.planDump && in.m) dumpPlans(in);
 #endif
+#ifdef HFSM2_ENABLE_STRUCTURE_REPORT
+		if (knobs.structDump && in.m) {
+			const auto& st = in.m->structure(); const auto& ah = in.m->activityHistory();
+			log.tag('Y'); log.i((long)st.count());
+			for (unsigned i = 0; i < st.count(); ++i) { log.i(st[i].isActive ? 1 : 0); log.i((int)ah[i]); }
+			log.nl();
+		}
+#endif
 		log.tag('E'); log.nl();
 		log.flush();
 	}
@@ -192,6 +200,9 @@ struct Driver {
 		in.active = !VH_MANUAL;
 		for (int st = 0; st < VH_SHAPE.nStates; ++st) in.probe.expectThis[st] = nullptr;
 		vhFillThis(*in.m, in.probe);
+#ifdef HFSM2_ENABLE_STRUCTURE_REPORT
+		if (knobs.structDump) { const auto& st = in.m->structure(); log.tag('N'); for (unsigned i = 0; i < st.count(); ++i) log.s(st[i].name && st[i].name[0] ? st[i].name : "?"); log.nl(); }
+#endif
 		for (int st = 0; st < VH_SHAPE.nStates; ++st)
 			if (in.probe.firstThis[st] && in.probe.expectThis[st] && in.probe.firstThis[st] != in.probe.expectThis[st]) { log.tag('V'); log.s("C03.this-ctor"); log.i(st); log.nl(); }
 		opEnd(in);
@@ -244,7 +255,7 @@ int main(int argc, char** argv) {
 		else if (key == "log") logPath = eq + 1;
 		else if (key == "watchdog") watchdog = v;
 		KN(pIssue); KN(pGuardCancel); KN(pGuardIssue); KN(pConsume); KN(pSucceed); KN(pFail); KN(pHeadStatus); KN(pPropagate); KN(pPlanInCb);
-		KN(kinds); KN(planDump); KN(maxBatch); KN(wfEvery); KN(palette); KN(zeroUtil); KN(pendq);
+		KN(kinds); KN(structDump); KN(logAnswers); KN(planDump); KN(maxBatch); KN(wfEvery); KN(palette); KN(zeroUtil); KN(pendq);
 		DR(wUpdate); DR(wReact); DR(wQuery); DR(wImmediate); DR(wReset); DR(wExitEnter); DR(wSaveLoad); DR(wPlanEdit); DR(wExtStatus); DR(wRecreate);
 		DR(replica); DR(useLogger); DR(verboseMethods); DR(fillByte);
 		else { fprintf(stderr, "unknown key %s\n", key.c_str()); return 2; }
